@@ -8,7 +8,8 @@ W=/tmp/c14_selftest
 rm -rf $W; mkdir -p $W/base
 cp -r $SRC/sharepoint2text $W/base/
 for d in $ROOT/proposed_fixes/C14_resolution.diff $ROOT/proposed_fixes/C14_jpeg_fill_bytes.diff; do
-  (cd $W/base && patch -p1 -s --forward < $d) || true
+  # (the proposed fixes are part of /repo since round 2: apply only where they still apply)
+  (cd $W/base && patch -p1 -s --forward --dry-run < $d > /dev/null 2>&1 && patch -p1 -s --forward < $d) || true
 done
 E=sharepoint2text/parsing/extractors
 run() {   # name expected-exit python-edit
@@ -50,9 +51,15 @@ s = s[:c] + 'for slide in self.slides[:-1]:' + s[c+len('for slide in self.slides
 open(E+'data_types.py','w').write(s)"
 run0 B5_docx_number_before_increment 1 "$ED
 s = open(E+'ms_modern/docx_extractor.py').read()
-s = s.replace('            image_counter += 1\n            ext = target.rsplit', '            ext = target.rsplit', 1)
-s = s.replace('                    anchor_paragraph_indices=sorted(\n                        image_anchor_paragraph_indices.get(rel_id, set())\n                    ),\n                )\n            )\n', '                    anchor_paragraph_indices=sorted(\n                        image_anchor_paragraph_indices.get(rel_id, set())\n                    ),\n                )\n            )\n            image_counter += 1\n', 1)
-assert 'ext = target.rsplit' in s and s.count('image_counter += 1') == 1
+old = '            image_counter += 1\n            ext = target.rsplit'
+assert s.count(old) == 1
+s = s.replace(old, '            ext = target.rsplit', 1)
+old2 = '                    image_index=image_counter,\n'
+assert s.count(old2) == 1
+s = s.replace(old2, '                    image_index=image_counter + 0,\n', 1)
+old3 = '        except Exception as e:\n            logger.debug(f\"Image extraction failed'
+assert s.count(old3) == 1
+s = s.replace(old3, '            image_counter += 1\n' + old3, 1)
 open(E+'ms_modern/docx_extractor.py','w').write(s)"
 run0 B6_xlsx_bmp_big_endian 1 "$ED
 sub(E+'ms_modern/xlsx_extractor.py', 'w = int.from_bytes(image_data[18:22], \"little\", signed=True)', 'w = int.from_bytes(image_data[18:22], \"big\", signed=True)')"
